@@ -113,6 +113,10 @@ class TracepointConfigService:
                                                     self._current_hash, old_config, self._tracepoint_config)
             future.add_done_callback(lambda _: logging.debug("Completed processing new config %s", ts))
 
+    def resync(self):
+        """Hand the current config to the listeners again."""
+        self.__trigger_update(None, None)
+
     def set_task_handler(self, task_handler):
         """
         Set the task handler to use.
